@@ -70,7 +70,7 @@ CHECKS.update({
 })
 
 CHECKS["C05"] = {"pkg": "ipamsim", "test": "TestC05", "level": "fault_enumeration",
-    "quick": {"checks": 250, "timeout": 900},
+    "quick": {"checks": 800, "shards": 4, "timeout": 900},
     "thorough": {"checks": 2400, "shards": 16, "timeout": 3000, "test": "TestC05All"},
     "rule": GEN + "Sequential histories (with reloads, API release, pool API, reservations). A fault-free run records galaxy-ipam's "
             "API-call trace; then the history is re-executed once per selected (op, call index) x {error, crash-before, crash-after} "
@@ -99,7 +99,7 @@ CHECKS["C09"] = hist("TestC09", GEN + "Sequences of 2-4 configurations (ranges s
 IPAM_ASSUME = ["fake API server (client-go object tracker); pre-states are built through the real IPAM (AllocateSpecificIP)",
                "IPv4; node subnets pairwise identical or disjoint; requested range lists pairwise disjoint (precondition of the feature)"]
 CHECKS["C06"] = {"pkg": "ipamsim", "test": "TestC06", "level": "exploration",
-    "quick": {"checks": 4000, "timeout": 900}, "thorough": {"checks": 200000, "shards": 16, "timeout": 2400, "test": "TestC06All"},
+    "quick": {"checks": 12000, "shards": 4, "timeout": 900}, "thorough": {"checks": 200000, "shards": 16, "timeout": 2400, "test": "TestC06All"},
     "rule": "rapid draws a topology (pools sharing pod subnets with disjoint ranges, node subnets shared by pools, /32 node subnets), 1-6 nodes "
             "(some outside every subnet or without InternalIP), a pre-state (random allocations to other owners, one pool exhausted), a pod "
             "(statefulset/deployment/custom resource/bare; default/immutable/never; 0-3 requested range lists; 0-2 IPs already held) and a "
@@ -109,7 +109,7 @@ CHECKS["C06"] = {"pkg": "ipamsim", "test": "TestC06", "level": "exploration",
             "accepted and rejected candidates.",
     "assumptions": IPAM_ASSUME, "floors": {"fresh_default_pod": 0.2, "request_ranges": 0.1}}
 CHECKS["C08"] = {"pkg": "ipamsim", "test": "TestC08", "level": "fault_enumeration",
-    "quick": {"checks": 1500, "timeout": 900}, "thorough": {"checks": 100000, "shards": 16, "timeout": 2400},
+    "quick": {"checks": 5000, "shards": 4, "timeout": 900}, "thorough": {"checks": 100000, "shards": 16, "timeout": 2400},
     "rule": "rapid draws a topology, k=1-4 pairwise-disjoint requested range lists (some partly outside the configuration), a pre-state "
             "(IPs owned by others, 0-2 IPs of the ranges already owned by the same key) and a node; for every index j=0..k the j-th "
             "FloatingIP creation is made to fail (j=0: no fault), at two levels: AllocateInSubnetsAndIPRange directly and Filter->Bind "
@@ -120,7 +120,7 @@ CHECKS["C08"] = {"pkg": "ipamsim", "test": "TestC08", "level": "fault_enumeratio
     "floors": {"create_failed_at_index_ge_1": 0.03}}
 
 CHECKS["C11"] = {"pkg": "ipamsim", "test": "TestC11", "level": "exploration",
-    "quick": {"checks": 1500, "timeout": 900}, "thorough": {"checks": 120000, "shards": 16, "timeout": 2400},
+    "quick": {"checks": 5000, "shards": 4, "timeout": 900}, "thorough": {"checks": 120000, "shards": 16, "timeout": 2400},
     "rule": "rapid draws 1-40 pods with DNS-1123 namespaces/names (length up to 63, heavy '-' and digits, reserved words like sts/dp/pool/null), "
             "owner in {none, StatefulSet, ReplicaSet with/without '-', Deployment, TApp, arbitrary kinds, case variants, two owners}, pool "
             "name in {none, DNS-1123}, plus page in [-1,100000] and size in [-1,10000]. Oracle: distinct pods => distinct keys; "
@@ -136,7 +136,7 @@ E2_ASSUME = ["recording fake CNI plugin binaries executed through the real invok
              "requests of one container are sequential (kubelet serialises them); containers may run concurrently"]
 CHECKS["C12"] = {"pkg": "galaxysim", "test": "TestC12", "level": "fault_enumeration",
     "extra_builds": [{"pkg": "cmd/fakecni", "out": "fakecni"}],
-    "quick": {"checks": 500, "timeout": 900}, "thorough": {"checks": 24000, "shards": 16, "timeout": 2400},
+    "quick": {"checks": 1600, "shards": 4, "timeout": 900}, "thorough": {"checks": 24000, "shards": 16, "timeout": 2400},
     "rule": "rapid draws a static configuration (1-4 networks: inline with name, inline keyed by type, .conf files in a conf dir, .conflist; "
             "DefaultNetworks; optional ENIIPNetwork), 1-3 pods (networks annotation absent / comma form ns/net@if / JSON form; ENI resource; "
             "extended-args annotation), a request sequence for up to 2 containers per pod (one ADD each, then DELs incl. repeated and retried "
@@ -148,7 +148,7 @@ CHECKS["C12"] = {"pkg": "galaxysim", "test": "TestC12", "level": "fault_enumerat
     "assumptions": E2_ASSUME, "floors": {"multi_network": 0.3, "failure_injected": 0.1}}
 CHECKS["C13"] = {"pkg": "galaxysim", "test": "TestC13", "level": "exploration",
     "extra_builds": [{"pkg": "cmd/fakecni", "out": "fakecni"}],
-    "quick": {"checks": 600, "timeout": 900}, "thorough": {"checks": 32000, "shards": 16, "timeout": 2400},
+    "quick": {"checks": 2000, "shards": 4, "timeout": 900}, "thorough": {"checks": 32000, "shards": 16, "timeout": 2400},
     "rule": "rapid draws a pool (mask /8-/30, gateway anywhere in the subnet, VLAN 0-4094), a statefulset or deployment pod requesting k=0-4 "
             "ranges, and 1-2 networks. Real Filter+Bind on the simulated cluster -> the applied binding annotation is put on the pod served "
             "to the real galaxy daemon -> ADD -> the fake plugin's recorded CNI_ARGS is decoded with the plugins' own cni/ipam.Allocate -> "
@@ -159,7 +159,7 @@ CHECKS["C13"] = {"pkg": "galaxysim", "test": "TestC13", "level": "exploration",
 E3_ASSUME = ["strict iptables/ipset fakes (/verif/harness/nf) with kernel-faithful acceptance rules: atomic iptables-restore --noflush per table, a chain line creates or flushes, -A needs the chain, jump targets and matched sets must exist, -X fails on referenced or non-empty chains, ipset destroy fails while referenced, hash:net rejects /0 and keeps nomatch",
              "the iptables half of the fake is cross-checked against the real iptables-restore in a private network namespace (setup_extra.sh); ipset semantics are modelled from its documentation (no ipset binary here)"]
 CHECKS["C14"] = {"pkg": "netsim", "test": "TestC14", "level": "exploration",
-    "quick": {"checks": 1200, "timeout": 900}, "thorough": {"checks": 48000, "shards": 8, "timeout": 2400},
+    "quick": {"checks": 4000, "shards": 4, "timeout": 900}, "thorough": {"checks": 48000, "shards": 8, "timeout": 2400},
     "rule": "rapid draws 1-6 pods x 0-4 ports (explicit host ports taken from currently free kernel ports, random host port 0, tcp/udp in mixed "
             "case, host IP empty or set), 0-2 other pods with live mappings, prior NAT tables with 0-3 foreign chains/rules and 0-3 stale "
             "KUBE-HP-* chains with dangling KUBE-HOSTPORTS rules; real sockets, strict fake iptables. Oracle: full sync from any prior "
@@ -172,7 +172,7 @@ CHECKS["C14"] = {"pkg": "netsim", "test": "TestC14", "level": "exploration",
     "floors": {"stale_galaxy_chains": 0.3, "foreign_rules": 0.3}}
 
 CHECKS["C15"] = {"pkg": "netsim", "test": "TestC15", "level": "exploration",
-    "quick": {"checks": 1500, "timeout": 900}, "thorough": {"checks": 48000, "shards": 16, "timeout": 2400},
+    "quick": {"checks": 6000, "shards": 4, "timeout": 900}, "thorough": {"checks": 48000, "shards": 16, "timeout": 2400},
     "rule": "rapid draws a pair of cluster states A,B (2-4 labelled namespaces, 3-10 labelled pods with IPs, some on this node, 0-5 policies "
             "with pod/namespace/combined selectors, ipBlocks with excepts, ports, all policyTypes combinations; B derived from A by pod "
             "delete/relabel/re-address/add and policy delete/rewrite/add), optionally the A->B difference as a generated permutation of "
@@ -186,7 +186,7 @@ CHECKS["C15"] = {"pkg": "netsim", "test": "TestC15", "level": "exploration",
     "floors": {"stale_glx_garbage": 0.3, "pod_changed": 0.3}}
 
 CHECKS["C16"] = {"pkg": "netsim", "test": "TestC16", "level": "exploration",
-    "quick": {"checks": 1500, "timeout": 900}, "thorough": {"checks": 64000, "shards": 16, "timeout": 2400},
+    "quick": {"checks": 6000, "shards": 4, "timeout": 900}, "thorough": {"checks": 64000, "shards": 16, "timeout": 2400},
     "rule": "rapid draws a cluster (2-4 labelled namespaces, 3-10 labelled pods with IPs, local or remote) and 0-5 policies (pod selectors with "
             "matchLabels/matchExpressions, namespace selectors, both combined, ipBlocks with excepts incl. 0.0.0.0/0, numeric TCP/UDP ports, "
             "empty from/to, empty ports, every policyTypes combination). The real policy manager installs rules on the strict fakes (two full "
@@ -204,7 +204,7 @@ CHECKS["C16"] = {"pkg": "netsim", "test": "TestC16", "level": "exploration",
     "floors": {"isolated_local_pod": 0.3, "agrees_with_kubernetes_semantics": 0.2}}
 
 CHECKS["C17"] = {"pkg": "gcsim", "test": "TestC17", "level": "fault_enumeration",
-    "quick": {"checks": 1200, "timeout": 900}, "thorough": {"checks": 40000, "shards": 8, "timeout": 2400},
+    "quick": {"checks": 4000, "shards": 4, "timeout": 900}, "thorough": {"checks": 40000, "shards": 8, "timeout": 2400},
     "rule": "rapid draws 3-12 container ids with a runtime state (Docker mode: running, paused, restarting, created, exited, dead, 404, "
             "daemon 500, connection reset; containerd mode: sandbox READY, NOTREADY x {pod missing, containers running/waiting/terminated, "
             "apiserver error}, NotFound, Unavailable), IP-reservation files named by IP in two dirs (content id, id\\nif, id\\r\\nif, "
@@ -219,7 +219,7 @@ CHECKS["C17"] = {"pkg": "gcsim", "test": "TestC17", "level": "fault_enumeration"
 
 CHECKS["C18"] = {"pkg": "robust", "test": "(TestC18|FuzzC18.*)", "level": "exploration", "hang_is_violation": True,
     "extra_builds": [{"pkg": "cmd/fakecni", "out": "fakecni"}],
-    "quick": {"checks": 2500, "timeout": 1200},
+    "quick": {"checks": 8000, "shards": 4, "timeout": 1200},
     "thorough": {"checks": 64000, "shards": 16, "timeout": 3000,
                  "fuzz": [{"target": "FuzzC18Config", "time": "40s"}, {"target": "FuzzC18PodArgs", "time": "40s"}, {"target": "FuzzC18HTTP", "time": "40s"},
                           {"target": "FuzzC18CNI", "time": "30s"}, {"target": "FuzzC18GalaxyConf", "time": "20s"}, {"target": "FuzzC18Parsers", "time": "30s"}]},
@@ -239,7 +239,7 @@ CHECKS["C18"] = {"pkg": "robust", "test": "(TestC18|FuzzC18.*)", "level": "explo
 
 CHECKS["C19"] = {"pkg": "racesim", "test": "TestC19", "level": "exploration", "race": True,
     "extra_builds": [{"pkg": "cmd/fakecni", "out": "fakecni"}],
-    "quick": {"checks": 150, "timeout": 1200},
+    "quick": {"checks": 480, "shards": 4, "timeout": 1200},
     "thorough": {"checks": 9600, "shards": 16, "timeout": 3000},
     "rule": "rapid draws operation mixes for 4-12 free-running goroutines on shared instances, in a binary built with -race: (a) galaxy-ipam: "
             "Filter, Filter+Bind (one bind per pod), Preempt, pod update/finish/delete events feeding 5 unbind loops, resync and pod-IP sync "
